@@ -9,9 +9,10 @@ from ref import reloadmodel as RM
 PID = "C10"
 LEVEL = "model_checking"
 RULE = (
-    "file tree = the 9-file universe (two top-level scripts, scripts/s/x.py, app package app1 with a sibling, app file "
-    "app2, module m1, module package m2 with a sibling) under each import graph of the tier's graph list (subsets of "
-    "the 9-edge menu script->module, module->module, app->module, package->sibling, diamond); from the fully loaded "
+    "file tree = the 12-file universe (two top-level scripts, scripts/s/x.py, app package app1 with a sibling, app files "
+    "app2 and app11, modules m1, m11 and leaf, module package m2 with a sibling; app1/app11 and m1/m11 are string prefixes "
+    "of each other) under each import graph of the tier's graph list (subsets of the 14-edge menu script->module, "
+    "module->module, app->module, package->sibling, two-path diamond above a shared module with a further module below it); from the fully loaded "
     "state every single edit and every pair of edits from {modify, touch (mtime only), delete, '#'-rename of a file, "
     "'#'-rename of a package directory, remove / change an app's configuration} followed by pyscript.reload with "
     "global_ctx in {absent, '*', and context names of a script, a module, a package sibling, an app}; then a second "
@@ -28,12 +29,15 @@ MAXTASKS = 30
 
 MENU = [("file.a", "modules.m1"), ("file.a", "modules.m2"), ("file.b", "modules.m1"), ("scripts.s.x", "modules.m2"),
         ("modules.m1", "modules.m2"), ("apps.app1", "modules.m1"), ("apps.app1", "apps.app1.sib"),
-        ("modules.m2", "modules.m2.sib"), ("apps.app2", "modules.m2")]
+        ("modules.m2", "modules.m2.sib"), ("apps.app2", "modules.m2"),
+        # 9..13: a second path to the shared module (diamond file.a -> m1 -> m2 <- m11 <- file.a), a module below it, prefix-named importers
+        ("file.a", "modules.m11"), ("modules.m11", "modules.m2"), ("modules.m2", "modules.leaf"), ("apps.app11", "modules.m1"),
+        ("file.b", "modules.m11")]
 
 
 def graphs(tier):
     full = list(range(len(MENU)))
-    base = [(), tuple(full), (0,), (0, 4), (0, 2, 4, 7), (5, 6), (1, 3, 8, 7), (0, 1, 4)]
+    base = [(), tuple(full), (0,), (0, 4), (0, 2, 4, 7), (5, 6), (1, 3, 8, 7), (0, 1, 4), (0, 4, 9, 10, 11), (5, 12, 2, 13, 10, 11)]
     if tier == "quick":
         return base
     more = [(i,) for i in full] + [(i, j) for i, j in itertools.combinations(full, 2) if (i + j) % 3 == 0] + \
@@ -64,7 +68,7 @@ def src(ctx, gen, edges):
 
 
 EDITS = [(k, p) for p in RM.FILES for k in ("MOD", "TOUCH", "DEL", "HASH")] + \
-        [("HASHDIR", "apps/app1"), ("HASHDIR", "modules/m2"), ("CONFDEL", "app1"), ("CONFCHG", "app1"), ("CONFDEL", "app2"), ("CONFCHG", "app2")]
+        [("HASHDIR", "apps/app1"), ("HASHDIR", "modules/m2"), ("CONFDEL", "app1"), ("CONFCHG", "app1"), ("CONFDEL", "app2"), ("CONFCHG", "app2"), ("CONFCHG", "app11")]
 RELOADS = [None, "*", "file.a", "modules.m1", "modules.m2.sib", "apps.app1", "file.nosuch"]
 
 
@@ -121,7 +125,7 @@ def run_case(graph, edits1, reload1, edit2, legacy=False):
     edges = edges_of(graph)
     m = RM.ReloadModel(edges)
     files = {p: src(c, 1, edges) for p, c in RM.FILES.items()}
-    w = World(files, legacy=legacy, config={"apps": {"app1": {"val": 1}, "app2": {"val": 1}}})
+    w = World(files, legacy=legacy, config={"apps": {"app1": {"val": 1}, "app2": {"val": 1}, "app11": {"val": 1}}})
     try:
         for p in RM.FILES:
             m.files[p]["mtime"] = os.path.getmtime(os.path.join(w.psdir, p))
@@ -175,7 +179,7 @@ def cases(tier):
         for e in singles:
             for rel in RELOADS:
                 out.append((g, e, rel, None))
-        pair_graph = tier == "thorough" or gi in (1, 4)
+        pair_graph = tier == "thorough" or gi in (1, 8)
         if pair_graph:
             for e1, e2 in itertools.combinations(EDITS, 2):
                 if e1[1] == e2[1] and e1[0] != e2[0] and {e1[0], e2[0]} & {"DEL", "HASH"}:
@@ -185,7 +189,7 @@ def cases(tier):
         second = EDITS if tier == "thorough" else EDITS[::3]
         for e in singles[:: (1 if tier == "thorough" else 2)]:
             for e2 in second:
-                if gi in (1, 4) or tier == "thorough" and gi % 5 == 0:
+                if gi in (1, 8) or tier == "thorough" and gi % 5 == 0:
                     out.append((g, e, None, e2))
     return out
 
